@@ -19,7 +19,7 @@ func (c01) ID() string { return "C01" }
 func (c01) Meta(tier string) engine.Meta {
 	d := "1 in full, depth 2 with one nested operand"
 	if tier == "thorough" {
-		d = "2 in full; 3 for number- and string-typed programs in the raw representation"
+		d = "2 in full; 3 for number-typed programs in the raw representation"
 	}
 	return engine.Meta{
 		Level: "model_checking",
@@ -126,7 +126,7 @@ func (c01) Generate(tier string, yield func(*engine.Case) bool) {
 		for _, ty := range []*gen.Ty{tyOAB, gen.Num, gen.Str, gen.Bool, tyLO, tyMSO, tyO3} {
 			if tier == "thorough" {
 				depth := 2
-				if rep == "raw" && (ty == gen.Num || ty == gen.Str) {
+				if rep == "raw" && ty == gen.Num {
 					depth = 3
 				}
 				g.Each(ty, depth, func(t *gen.Term) bool {
